@@ -72,7 +72,8 @@ structure DocSymbol where
 def hDocumentSymbols (st : Index) (f : Path) : List DocSymbol :=
   (st.defs.filter (fun d => d.file == f && !d.thirdParty)).map (fun d =>
     { name := d.name,
-      range := ⟨f, toLsp d.line, 0, toLsp d.endLine, 0⟩,
+      -- a definition ending on its first line extends to the end of the name (E17 repair)
+      range := ⟨f, toLsp d.line, 0, toLsp d.endLine, if d.endLine == d.line then d.endChar else 0⟩,
       selection := spanLoc f (toLsp d.line) d.startChar d.endChar,
       detail := d.returnType.map (fun rt => "-> " ++ rt) })
 
@@ -111,7 +112,7 @@ def fixtureDetail (d : Def) : String :=
 def hPrepareCallHierarchy (st : Index) (f : Path) (line0 col : Nat) : Option CallItem × Index :=
   match st.gotoOrDef f line0 col with
   | (some d, st) =>
-    (some { name := d.name, range := pointLoc d.file (toLsp d.line),
+    (some { name := d.name, range := ⟨d.file, toLsp d.line, 0, toLsp d.line, d.endChar⟩,
             selection := spanLoc d.file (toLsp d.line) d.startChar d.endChar,
             detail := fixtureDetail d }, st)
   | (none, st) => (none, st)
@@ -153,7 +154,7 @@ def hOutgoingCalls (st : Index) (f : Path) (name : String) : Option (List (CallI
       | none => (acc.1, st')
       | some dd =>
         let sel := spanLoc dd.file (toLsp dd.line) dd.startChar dd.endChar
-        (acc.1 ++ [({ name := dd.name, range := pointLoc dd.file (toLsp dd.line), selection := sel,
+        (acc.1 ++ [({ name := dd.name, range := ⟨dd.file, toLsp dd.line, 0, toLsp dd.line, dd.endChar⟩, selection := sel,
                       detail := fixtureDetail dd },
                     (st'.parameterRange f d.line d.endLine dep).getD sel)], st')) ([], st)
     (some items, st)
@@ -174,9 +175,9 @@ def hInlayHints (st : Index) (f : Path) (startLine endLine : Nat) :
     let (res, st) := (usages.filter (fun u => startLine ≤ u.line && u.line ≤ endLine)).foldl
       (fun (acc : List (Nat × Nat × String) × Index) u =>
         -- a fixture requesting its own name: the type of the definition it overrides
-        -- (`get_definition_at_line`, then `find_closest_definition_excluding`)
+        -- (`get_enclosing_definition_named`, then `find_closest_definition_excluding`)
         let (rt, st') :=
-          match (defsOf acc.2.defs u.name).find? (fun d => d.file == f && d.line == u.line) with
+          match ownDefAt acc.2.defs f u.line u.name with
           | some own =>
             let (r, st') := resolveFM acc.2.defs impM f u.name (fun x => x != own) acc.2
             (r.bind (·.returnType), st')
@@ -195,9 +196,11 @@ structure Diag where
   deriving Repr, Inhabited
 
 /-- `publish_diagnostics_for_file`: undeclared fixtures, cycles anchored in the file, scope
-    mismatches — each family dropped when its code is disabled. The cycle family is given as the
+    mismatches — each family dropped when its code is disabled. The scope family compares with the
+    definitions `res` selects (`scopeTableSt`, resolution from the fixture's file). The cycle family is given as the
     list computed by `detect_fixture_cycles_in_file` (root order is a parameter there). -/
-def hDiagnostics (st : Index) (disabled : List String) (f : Path) (cycles : List Cycle) : List Diag :=
+def hDiagnostics (st : Index) (disabled : List String) (f : Path) (cycles : List Cycle)
+    (res : Def → String → Option Def) : List Diag :=
   (if disabled.contains "undeclared-fixture" then [] else
     ((alookup st.undeclared f).getD []).map (fun u =>
       { code := "undeclared-fixture", loc := spanLoc f (toLsp u.line) u.startChar u.endChar,
@@ -208,7 +211,7 @@ def hDiagnostics (st : Index) (disabled : List String) (f : Path) (cycles : List
         loc := spanLoc f (toLsp c.fixture.line) c.fixture.startChar c.fixture.endChar,
         message := "Circular fixture dependency detected: " ++ " → ".intercalate c.path })) ++
   (if disabled.contains "scope-mismatch" then [] else
-    (mismatchesIn st.defs ((alookup st.fileDefs f).getD []) f).map (fun m =>
+    (mismatchesIn st.defs res ((alookup st.fileDefs f).getD []) f).map (fun m =>
       { code := "scope-mismatch",
         loc := spanLoc f (toLsp m.1.line) m.1.startChar m.1.endChar,
         message := m.1.scope.asStr ++ "-scoped fixture '" ++ m.1.name ++ "' depends on " ++
